@@ -556,6 +556,84 @@ func runC20(w *World, r *Report) {
 		return 1, true
 	})
 
+	// ---- Workflow.compile applies the deferred declarations exactly once
+	r.Rule("C20.workflow-compile-once", "Workflow.compile: branch end nodes are validated before any branch is pushed into the inner graph; every container of deferred declarations (inputs, branches, static values) is reset once applied; pending declarations on an already compiled workflow are ErrGraphCompiled", 5)
+	{
+		wfc := w.Fn("compose", "Workflow.compile")
+		// (a) no path from an addBranch call to the unknown-end-node error return
+		var unknownRet []ssa.Instruction
+		instrs(wfc, func(in ssa.Instruction) {
+			ret, ok := in.(*ssa.Return)
+			if !ok || isNilConst(ret.Results[1]) {
+				return
+			}
+			// the error built by fmt.Errorf on the miss arm of workflowNodes[endNode]
+			if hasGuard(ret.Block(), func(g guard) bool {
+				e, ok := g.cond.(*ssa.Extract)
+				if !ok || e.Index != 1 || g.pol {
+					return false
+				}
+				lk, ok := e.Tuple.(*ssa.Lookup)
+				if !ok || !lk.CommaOk {
+					return false
+				}
+				f, _ := loadedField(lk.X)
+				return f != nil && f.Name() == "workflowNodes"
+			}) {
+				unknownRet = append(unknownRet, ret)
+			}
+		})
+		abs := callsTo(wfc, addBranch)
+		okFirst := len(unknownRet) > 0 && len(abs) > 0
+		for _, ab := range abs {
+			for _, ur := range unknownRet {
+				if again, _ := (pathQuery{fn: wfc, from: ab, goal: func(in ssa.Instruction) bool { return in == ur }}).exists(); again {
+					okFirst = false
+				}
+			}
+		}
+		r.Check(okFirst, "C20.workflow-compile-once", "Workflow.compile validates all branch end nodes before pushing a branch", wfc.Pos(), "the unknown-end-node error cannot follow an addBranch call", "a Compile that fails on a later branch's unknown end node has already pushed the earlier branches into the inner graph, and the error is not sticky: after the missing node is added, Compile succeeds with each earlier branch present once per attempt (its condition runs several times per run)")
+		// (b) containers reset
+		wfT := w.Named("compose", "Workflow")
+		wnT := w.Named("compose", "WorkflowNode")
+		reset := map[string]bool{}
+		for _, fw := range fieldWrites(wfc) {
+			if (fw.owner == wfT && fw.field.Name() == "workflowBranches") || (fw.owner == wnT && (fw.field.Name() == "addInputs" || fw.field.Name() == "staticValues")) {
+				reset[fw.field.Name()] = true
+			}
+		}
+		for _, f := range []string{"addInputs", "workflowBranches", "staticValues"} {
+			r.Check(reset[f], "C20.workflow-compile-once", "Workflow.compile resets "+f+" after applying it", wfc.Pos(), "the container is cleared in compile", "the deferred "+f+" are applied again by every Compile: a second Compile of the unchanged workflow fails ('two terminal field paths conflict') or doubles branches / handlers — repeated compilation does not give the same outcome")
+		}
+		// (c) pending declarations after a successful compile
+		fCompiled := w.Field("compose", "graph", "compiled")
+		okGate := false
+		instrs(wfc, func(in ssa.Instruction) {
+			iff, ok := in.(*ssa.If)
+			if !ok || !isLoadOfField(iff.Cond, fCompiled) {
+				return
+			}
+			// from the compiled arm an ErrGraphCompiled return is reachable
+			egc := w.GlobalVar("compose", "ErrGraphCompiled")
+			reach, _ := pathFromBlock(pathQuery{fn: wfc, goal: func(x ssa.Instruction) bool {
+				ret, ok := x.(*ssa.Return)
+				if !ok {
+					return false
+				}
+				u, ok := ret.Results[1].(*ssa.UnOp)
+				if !ok {
+					return false
+				}
+				g, ok := u.X.(*ssa.Global)
+				return ok && g.Object() == types.Object(egc)
+			}}, iff.Block().Succs[0])
+			if reach {
+				okGate = true
+			}
+		})
+		r.Check(okGate, "C20.workflow-compile-once", "Workflow.compile rejects declarations made after a successful Compile", wfc.Pos(), "compiled && pending -> ErrGraphCompiled", "nodes re-added / inputs or static values declared after a successful Compile are silently applied by the next Compile, which succeeds with different behaviour: the compiled workflow was modified")
+	}
+
 	// ---- presence
 	r.Rule("C20.presence", "ill-formed constructions are error arms that cannot reach the corresponding write", 8)
 	START, END := "start", "end"
